@@ -352,7 +352,10 @@ func c19Server(r *vfRun) {
 		{K: "posixrename", P: "f1", P2: "new1"}, {K: "stat", P: "new1"},
 		{K: "hardlink", P: "f0", P2: "new0"}, {K: "stat", P: "new0"},
 		{K: "extunknown", S: "fsync@openssh.com", P: "1"}, {K: "stat", P: "f0"},
-		{K: "extunknown", S: "nosuch@example.com", P: "x"}, {K: "extunknown", S: "", P: "x"}, {K: "extunknown", S: "statvfs@openssh.com ", P: "."}, {K: "stat", P: "f0"}}
+		{K: "extunknown", S: "nosuch@example.com", P: "x"}, {K: "extunknown", S: "", P: "x"}, {K: "extunknown", S: "statvfs@openssh.com ", P: "."}, {K: "stat", P: "f0"},
+		// the tail is sent without waiting for replies: an extended request still sees the effect of the command before it
+		{K: "mkdir", P: "nd"}, {K: "statvfs", P: "nd"}, {K: "stat", P: "nd"}}
+	const tail = 13
 	if kind == 1 {
 		for i := range prog {
 			if prog[i].P != "" && prog[i].K != "extunknown" {
@@ -374,6 +377,17 @@ func c19Server(r *vfRun) {
 			if i == 1 { // the first request after the handshake (the window is 1: VERSION has been received)
 				SetSFTPExtensions(again...)
 				sim.count("fault.reconfigured_during_session")
+			}
+		}
+	}
+	{
+		prev := s.wc.onSend
+		s.wc.onSend = func(i int, q *wReq) {
+			if i == tail {
+				s.wc.window = 0 // from here on everything goes out at once
+			}
+			if prev != nil {
+				prev(i, q)
 			}
 		}
 	}
@@ -425,6 +439,14 @@ func c19Server(r *vfRun) {
 			}
 		}
 		sim.count("probe.advertised_extensions_served")
+	}
+	if kind == 0 {
+		if _, adv := configured["statvfs@openssh.com"]; adv {
+			if rep[tail].Type != wtStatus || rep[tail].Code != wsOK || rep[tail+1].Type != wtExtReply || rep[tail+2].Type != wtAttrs {
+				r.fail("C19/advertised-extension-not-served", "statvfs-pipelined", "MKDIR nd, statvfs nd, STAT nd sent back-to-back were answered %v, %v, %v: the extended request did not see the directory made by the command before it", rep[tail], rep[tail+1], rep[tail+2])
+				return
+			}
+		}
 	}
 	// any other extended request: unsupported, and the session goes on
 	for _, i := range []int{7, 9, 10, 11} {
